@@ -68,7 +68,8 @@ def strategy(tier):
                 "content_pos": draw(st.integers(0, len(opts) + 1)),
                 "short_flags": draw(st.booleans()),
                 "tracker_alias": draw(st.sampled_from([False, False, True])),
-                "out_dir_form": draw(st.sampled_from([False, False, False, True]))}
+                "out_dir_form": draw(st.sampled_from([False, False, False, True])),
+                "content_spelling": draw(st.sampled_from(["abs", "abs", "trailing-sep", "dot-rel", "double-sep"]))}
     return case()
 
 
@@ -194,6 +195,13 @@ def run_case(case):
     with sandbox.Scratch("c20") as scr:
         os.makedirs(os.path.join(scr, "src"))
         content = sandbox.materialize(tree, os.path.join(scr, "src"))
+        sp = case.get("content_spelling", "abs")
+        if sp == "trailing-sep" and not tree["single"]:
+            content = content + "/"
+        elif sp == "dot-rel":
+            content = "./" + os.path.relpath(content, scr)      # every route runs with cwd = scr
+        elif sp == "double-sep":
+            content = os.path.dirname(content) + "//" + os.path.basename(content)
         metas = {}
         swallowed = False
         for route in ("cli", "config", "lib"):
@@ -226,6 +234,11 @@ def run_case(case):
                 return Outcome(Violation("C20:%s:exception:%s" % (route, type(e).__name__), "route %s raised %r" % (route, e)), True)
             finally:
                 os.chdir(old)
+            if case["out_dir_form"]:
+                # `out` names a directory: which file name the tool picks inside it is not C20's business
+                inside = [x for x in os.listdir(odir) if os.path.isfile(os.path.join(odir, x))]
+                if len(inside) == 1:
+                    want = os.path.join(odir, inside[0])
             if not os.path.isfile(want):
                 stray = [p for p in sandbox.snapshot(scr) if p.endswith(".torrent")]
                 return Outcome(Violation("C20:%s:out-ignored" % route, "route %s did not write the metafile where `out` says (%s); .torrent files now: %r" % (
@@ -236,6 +249,7 @@ def run_case(case):
         classes.append("content-after-list-flag")
     if case["out_dir_form"]:
         classes.append("out-dir-form")
+    classes.append("content-" + case.get("content_spelling", "abs"))
     base = metas["cli"].without("creation date")
     for route in ("config", "lib"):
         if metas[route].without("creation date") != base:
